@@ -165,6 +165,9 @@ func ParseChunk(buf []byte) (*Chunk, error) {
 	if err != nil {
 		return nil, fmt.Errorf("failed to read compression: %w", err)
 	}
+	if recordsLength > uint64(len(buf)-offset) {
+		return nil, fmt.Errorf("failed to read chunk records: %w", io.ErrShortBuffer)
+	}
 	records := buf[offset : offset+int(recordsLength)]
 	return &Chunk{
 		MessageStartTime: messageStartTime,
